@@ -1,16 +1,120 @@
-"""Entry point: ./check <ID> --tier quick|thorough [--replay file]"""
+"""Entry point: ./check <ID> --tier quick|thorough [--replay file]
+
+quick    : rules over the facts of `cargo check --workspace --lib` (feature unification as in the baseline test build)
+thorough : quick + the same rules over the `--all-features` build + checker self-test: every seeded change and revert mutant
+           recorded for the property is applied to a scratch copy of /repo's working tree (outside /repo and /verif, removed
+           afterwards), re-extracted and must be reported.  Self-test results go to the evidence file; only a violation of the
+           property on /repo's own tree makes the check exit 1.
+"""
 import argparse
 import importlib
 import json
 import os
+import shutil
+import subprocess
 import sys
+import tempfile
 import time
 
 sys.path.insert(0, os.path.dirname(os.path.abspath(__file__)))
 
 import extract  # noqa: E402
 from facts import Facts  # noqa: E402
-from report import Reporter  # noqa: E402
+from report import Reporter, VERIF  # noqa: E402
+
+
+def known_keys(pid):
+    kf = os.path.join(VERIF, "known_findings.json")
+    out = set()
+    if os.path.exists(kf):
+        for f in json.load(open(kf)).get("findings", []):
+            if f["property"] == pid:
+                out.add(f["key"])
+    return out
+
+
+def run_config(mod, pid, tier, config, repo=None, facts_name=None):
+    facts_dir, st = extract.extract(config, repo=repo or extract.REPO, facts_name=facts_name)
+    F = Facts(facts_dir, getattr(mod, "CRATES", None))
+    sub = Reporter(pid, tier)
+    for name in list(sys.modules):
+        m = sys.modules[name]
+        if hasattr(m, "_SUB") and isinstance(getattr(m, "_SUB"), dict):
+            m._SUB.clear()
+    mod.run(F, sub, tier)
+    return F, sub, st
+
+
+def merge(R, sub, config):
+    """Fold the findings of a second configuration into the main reporter (same keys → same finding)."""
+    by = {r.rid: r for r in R.rules}
+    for r in sub.rules:
+        main = by.get(r.rid)
+        if main is None:
+            R.rules.append(r)
+            continue
+        have = {k for k, _, _ in main.fails}
+        for k, msg, where in r.fails:
+            if k not in have:
+                main.fails.append((k, "%s [configuration %s]" % (msg, config), where))
+        main.notes.append("configuration %s: %d site(s), %d failure(s)" % (config, len(r.sites), len(r.fails)))
+
+
+def selftest_patches(pid):
+    out = []
+    sd = os.path.join(VERIF, "seeded")
+    for d in sorted(os.listdir(sd)) if os.path.isdir(sd) else []:
+        if d.startswith(pid + "-") and os.path.exists(os.path.join(sd, d, "patch.diff")):
+            out.append(("seed " + d, os.path.join(sd, d, "patch.diff")))
+    idx = os.path.join(VERIF, "mutants", "index.json")
+    if os.path.exists(idx):
+        for name, pids in sorted(json.load(open(idx)).items()):
+            if pid in pids:
+                out.append(("mutant " + name, os.path.join(VERIF, "mutants", name)))
+    return out
+
+
+def selftest(mod, pid, tier, R):
+    patches = selftest_patches(pid)
+    if not patches:
+        return
+    # fixed scratch path per property: cargo keys member artefacts by workspace path, a random path would grow the target dir
+    scratch = os.path.join(os.environ.get("VERIF_SCRATCH", tempfile.gettempdir()), "verif-selftest-" + pid)
+    import fcntl
+    os.makedirs(extract.WORK, exist_ok=True)
+    lock = open(os.path.join(extract.WORK, "selftest-%s.lock" % pid), "w")
+    fcntl.flock(lock, fcntl.LOCK_EX)
+    shutil.rmtree(scratch, ignore_errors=True)
+    os.makedirs(scratch)
+    repo = os.path.join(scratch, "repo")
+    try:
+        subprocess.run(["rsync", "-a", "--exclude", "/target", "--exclude", ".git", "--exclude", "node_modules", extract.REPO + "/", repo + "/"], check=True)
+        known = known_keys(pid)
+        for label, patch in patches:
+            t0 = time.time()
+            a = subprocess.run(["git", "apply", "--whitespace=nowarn", patch], cwd=repo, capture_output=True, text=True)
+            if a.returncode != 0:
+                R.fixtures.append({"fixture": label, "result": "skipped", "reason": "patch does not apply to the current tree"})
+                print("selftest %s: skipped (does not apply to the current tree)" % label)
+                continue
+            try:
+                _, sub, _ = run_config(mod, pid, tier, "workspace", repo=repo, facts_name="facts-selftest-" + pid)
+                keys = [k for r in sub.rules for k, _, _ in r.fails if k not in known]
+                res = "detected" if keys else "NOT-DETECTED"
+            except SystemExit as e:
+                keys, res = [], "skipped"
+                R.fixtures.append({"fixture": label, "result": "skipped", "reason": str(e)[:200]})
+                print("selftest %s: skipped (%s)" % (label, str(e)[:120]))
+            finally:
+                subprocess.run(["git", "apply", "-R", "--whitespace=nowarn", patch], cwd=repo, capture_output=True)
+            if res != "skipped":
+                R.fixtures.append({"fixture": label, "result": res, "keys": keys[:6], "wall_s": round(time.time() - t0, 1)})
+                print("selftest %s: %s%s" % (label, res, (" by " + keys[0][:150]) if keys else ""))
+    finally:
+        shutil.rmtree(scratch, ignore_errors=True)
+        shutil.rmtree(os.path.join(extract.WORK, "facts-selftest-" + pid), ignore_errors=True)
+        fcntl.flock(lock, fcntl.LOCK_UN)
+        lock.close()
 
 
 def main():
@@ -19,15 +123,16 @@ def main():
     ap.add_argument("--tier", default=os.environ.get("VERIF_TIER", "quick"))
     ap.add_argument("--replay")
     ap.add_argument("--force", action="store_true")
+    ap.add_argument("--no-selftest", action="store_true")
     a = ap.parse_args()
     pid = a.pid.upper()
     seed = int(os.environ.get("VERIF_SEED", "0") or 0)
-    t0 = time.time()
     mod = importlib.import_module(pid.lower())
-    facts_dir, st = extract.extract("workspace", force=a.force)
+    primary = os.environ.get("VERIF_CONFIG", "workspace")   # debugging aid: run the quick rules on another configuration
+    facts_dir, st = extract.extract(primary, force=a.force)
     F = Facts(facts_dir, getattr(mod, "CRATES", None))
     R = Reporter(pid, a.tier, seed)
-    R.configs.append({"name": "workspace", "cargo": "cargo +nightly check --offline --workspace --lib",
+    R.configs.append({"name": primary, "cargo": "cargo +nightly check --offline " + " ".join(extract.CONFIGS[primary]),
                       "tree_hash": st["tree_hash"], "cache_hit": st.get("cache_hit", False)})
     mod.run(F, R, a.tier)
     stats = {
@@ -36,8 +141,21 @@ def main():
         "functions_analysed": len(F.fns),
         "extract_wall_s": st.get("wall_s"),
     }
-    if a.tier == "thorough" and hasattr(mod, "thorough"):
-        mod.thorough(F, R)
+    if a.tier == "thorough":
+        if hasattr(mod, "thorough"):
+            mod.thorough(F, R)
+        try:
+            F2, sub, st2 = run_config(mod, pid, a.tier, "allfeatures")
+            merge(R, sub, "allfeatures")
+            R.configs.append({"name": "allfeatures", "cargo": "cargo +nightly check --offline --workspace --lib --all-features",
+                              "tree_hash": st2["tree_hash"], "cache_hit": st2.get("cache_hit", False),
+                              "bodies": sum(len(v) for v in F2.bodies_all.values())})
+        except SystemExit as e:
+            R.configs.append({"name": "allfeatures", "skipped": str(e)[:300]})
+            print("configuration allfeatures skipped: %s" % str(e)[:200])
+        clean = not any(k not in known_keys(pid) for r in R.rules for k, _, _ in r.fails)
+        if clean and not a.no_selftest and not os.environ.get("VERIF_NO_SELFTEST"):
+            selftest(mod, pid, a.tier, R)
     rc = R.finish(stats)
     if a.replay:
         want = json.load(open(a.replay)).get("key")
